@@ -5,6 +5,7 @@ shape vectors, all 8 variants).  Here: it accepts exactly the documented shapes.
 -/
 import MT.Main
 import MT.CliMain
+import MT.Generated.MainCode
 import Mathlib.Data.Nat.Sqrt
 import Mathlib.Tactic.Ring
 import Mathlib.Tactic.Linarith
@@ -166,5 +167,67 @@ example : ¬ ∃ L K, Accept ⟨false, 3, 3, 6, 9, 3, 6, 1, 1, 1⟩ L K := by
   subst hL
   have : K * K * 2 % 2 = 0 := Nat.mul_mod_left _ _
   omega
+
+/-! ### the validation part of main.hpp, translated from the source on every run -/
+
+theorem mapError_ite {ε ε' α : Type} (f : ε → ε') (c : Prop) [Decidable c] (a b : Except ε α) :
+    Except.mapError f (if c then a else b) = if c then Except.mapError f a else Except.mapError f b := by
+  split <;> rfl
+
+theorem mapError_error {ε ε' α : Type} (f : ε → ε') (e : ε) :
+    Except.mapError f (Except.error e : Except ε α) = .error (f e) := rfl
+
+theorem mapError_ok {ε ε' α : Type} (f : ε → ε') (a : α) :
+    Except.mapError f (Except.ok a : Except ε α) = .ok a := rfl
+
+/-- **the checks of `multitensor_factorization`, as they stand in main.hpp, are the model's `validate`**:
+same checks, same order, same conditions, same inferred `(L, K)`, and each error carries the message the
+code throws (`Gen.validateCode` is regenerated from the source statement by statement) -/
+theorem validateCode_eq (sh : Shapes) :
+    Gen.validateCode sh.assort sh.nStarts sh.nEnds sh.nWeights sh.nAffinity sh.nDistinct sh.uSize sh.r sh.maxIt sh.nConv
+      = (validate sh).mapError Err.message := by
+  unfold Gen.validateCode validate inferK affSize
+  cases sh.assort <;>
+    simp only [Bool.false_eq_true, if_false, if_true, mapError_ite, mapError_error, mapError_ok, Err.message]
+
+/-- hence the code accepts exactly the documented shapes -/
+theorem validateCode_iff (sh : Shapes) (L K : Nat) :
+    Gen.validateCode sh.assort sh.nStarts sh.nEnds sh.nWeights sh.nAffinity sh.nDistinct sh.uSize sh.r sh.maxIt sh.nConv
+      = .ok (L, K) ↔ Accept sh L K := by
+  rw [validateCode_eq]
+  constructor
+  · intro h
+    cases hv : validate sh with
+    | error e => rw [hv] at h; cases h
+    | ok p =>
+      rw [hv] at h
+      have : p = (L, K) := by simpa [Except.mapError] using h
+      subst this
+      exact validate_sound hv
+  · intro h
+    rw [validate_complete h]; rfl
+
+/-- the statements of `multitensor_factorization` before its last check (regenerated list, program order) -/
+def beforeLastCheck (ev : List (String × String × List String)) : List (String × String × List String) :=
+  (ev.reverse.dropWhile fun e => e.1 != "check").reverse
+
+/-- **no output argument is mentioned before the last check** (other than through `.size()`): whatever
+is rejected is rejected before `labels`, `u`, `v` or `affinity` can have been modified -/
+theorem outputs_untouched_before_last_check :
+    (beforeLastCheck Gen.mainEvents).all (fun e => e.2.2.isEmpty) = true := by decide
+
+/-- all eleven checks are there, and nothing can throw between them but the checks themselves (every other
+statement before the last check is a declaration of a size) -/
+theorem checks_documented :
+    ((beforeLastCheck Gen.mainEvents).filter fun e => e.1 == "check").length = 11 ∧
+    (beforeLastCheck Gen.mainEvents).all (fun e => e.1 == "check" || e.1 == "decl" || e.1 == "constexpr") = true := by
+  decide
+
+/-- after the checks: network, vertex lists, affinity tensor, solver, then — and only then — the outputs -/
+theorem outputs_written_after_run :
+    ((Gen.mainEvents.filter fun e => !e.2.2.isEmpty).map fun e => e.2.1) =
+      ["affinity_tw(nof_groups,nof_layers,affinity);",
+       "utils::Reportresults=solver.run<affinity_init_t>(*u_list,*v_list,A,u,v,w,random_generator);",
+       "A.extract_vertices_labels(labels);", "affinity=w.get_data();"] := by decide
 
 end MTProps.C15
